@@ -48,6 +48,9 @@ func (C06) Components() map[string]string {
 // left alone).
 var c06Depth int
 
+// c06DepthEarly: the knob is assigned before the root is built.
+var c06DepthEarly bool
+
 var fragSeg = regexp.MustCompile(`^fragment at \d+:\d+$`)
 
 type c06Case struct {
@@ -56,12 +59,18 @@ type c06Case struct {
 }
 
 func resolveTracked(q *workload.Query, strat workload.Strategy, req *workload.Request, plan *workload.FaultPlan) (resp map[string]interface{}, tr *workload.Tracker, panicked string) {
+	if c06Depth > 0 && c06DepthEarly {
+		old := ggql.MaxResolveDepth
+		ggql.MaxResolveDepth = c06Depth
+		defer func() { ggql.MaxResolveDepth = old }()
+	}
 	z, err := workload.NewZoo(q, strat)
 	if err != nil {
 		return nil, nil, "cannot build root: " + err.Error()
 	}
-	// a tuning knob of the library, assigned after the root exists
-	if c06Depth > 0 {
+	// a tuning knob of the library, assigned after the root exists (before it is
+	// built when c06DepthEarly is set, see below)
+	if c06Depth > 0 && !c06DepthEarly {
 		old := ggql.MaxResolveDepth
 		ggql.MaxResolveDepth = c06Depth
 		defer func() { ggql.MaxResolveDepth = old }()
@@ -473,7 +482,7 @@ func stripFrag(p []interface{}) []interface{} {
 }
 
 var c06Kinds = []string{workload.FaultError, workload.FaultGGQLError, workload.FaultErrorGroup, workload.FaultBadLeaf,
-	workload.FaultGroupExt, workload.FaultNestedGrp, workload.FaultBadList, workload.FaultTwinGroup, workload.FaultWrapGroup, workload.FaultWrapGGQL, workload.FaultOwnPath}
+	workload.FaultGroupExt, workload.FaultNestedGrp, workload.FaultBadList, workload.FaultTwinGroup, workload.FaultWrapGroup, workload.FaultWrapGGQL, workload.FaultOwnPath, workload.FaultTypedNil}
 
 func (c C06) Run(t *tape.Tape, opt core.RunOpt) (res core.Result) {
 	strat := []workload.Strategy{workload.StratInterface, workload.StratInterface, workload.StratAnyWrapped, workload.StratAnyWrapped, workload.StratReflect, workload.StratAny}[t.Draw(6)]
@@ -486,7 +495,10 @@ func (c C06) Run(t *tape.Tape, opt core.RunOpt) (res core.Result) {
 	req := workload.GenRequest(t, workload.ReqOpt{Strat: strat, NoErrors: true, UniqueKeys: true, NoUnion: pathAware, NoFragments: !pathAware, Nick: nick, Ghost: nick,
 		MultiOp: t.Bool(1, 5), VarInLiteral: strat != workload.StratReflect, ShuffleArgs: true, MaxDepth: 2 + t.Draw(4)})
 	thorough := opt.Tier == "thorough"
+	// (values well above the nesting of the generated requests: what the library
+	// answers beyond the limit - the unresolved Go value - is outside the property)
 	c06Depth = []int{0, 0, 40, 250}[t.Draw(4)]
+	c06DepthEarly = t.Bool(1, 2)
 	r0, tr0, pan := resolveTracked(q, strat, req, &workload.FaultPlan{})
 	res.Evaluations = 1
 	res.Sig = core.Hash64("r0", strat.String(), req.Src, req.Op)
